@@ -1,5 +1,7 @@
 import EudoxiaModel.Model.Sched.Overbook
 import EudoxiaModel.Proofs.WorldInv
+import EudoxiaModel.Proofs.OverbookLoop
+import EudoxiaModel.Proofs.OverbookExample
 /-! # C18 — overbook: one operator and one CPU per container, full-pool RAM, CPU-bound -/
 namespace Eudoxia.C18
 open Eudoxia Eudoxia.Overbook OpState Extracted
@@ -100,5 +102,19 @@ theorem never_suspends (w w' : World) (st st' : St) (res : List Res) (newP : Lis
     · split at h
       · cases h
       · simp at h; rw [← h.2.2]
+
+
+/-- **the overbook scheduler never raises over whole runs** (closed loop with the executor, memory overcommit on, either container mode): its queue holds
+distinct, existing, ready operators (`QOK`); every container it starts holds one operator, one CPU and the whole pool's RAM on a pool whose free CPUs it does not
+exceed, so the executor's gates let every round through; an executor tick without suspensions never touches a PENDING or FAILED operator, so the queue stays good.
+By induction over ticks, for every sequence of arrival batches. -/
+theorem overbook_run_never_raises (arrivals : List (List Nat)) (w : World) (st : St) (res : List Res) (inv : OBInv w st res) :
+    ∃ out, Overbook.loop w st res arrivals = .ok out :=
+  Overbook.run_never_raises arrivals w st res inv
+
+/-- the hypotheses are met by a concrete world (diamond DAG, two pools, overcommit on, nothing started): non-vacuity -/
+theorem overbook_theorem_applies_to_a_concrete_world (multi : Bool) (arrivals : List (List Nat)) :
+    ∃ out, Overbook.loop (OverbookExample.world multi) {} [] arrivals = .ok out :=
+  OverbookExample.runs multi arrivals
 
 end Eudoxia.C18
